@@ -268,7 +268,16 @@ impl Prop for C06 {
                     // the subscript as typed: sometimes with a fraction (floored), never changing the element meant
                     let typed_subs: Vec<String> = subs
                         .iter()
-                        .map(|x| if *x >= 0 && rng.chance(1, 5) { format!("{}.{}", x, rng.pick(&["5", "25", "9"])) } else { x.to_string() })
+                        .map(|x| {
+                            if *x >= 0 && rng.chance(1, 5) {
+                                format!("{}.{}", x, rng.pick(&["5", "25", "9"]))
+                            } else if *x == -1 && rng.coin() {
+                                // floors to -1 whatever the type of the constant
+                                rng.pick(&["-0.5", "-.25#", "-0.999#", "-1", "-0.5#"]).to_string()
+                            } else {
+                                x.to_string()
+                            }
+                        })
                         .collect();
                     let typed_key = format!("{}({})", name, typed_subs.join(","));
                     let b = bounds.clone().unwrap_or_else(|| vec![10; nd]);
